@@ -176,7 +176,55 @@ theorem extra_travels_perm (bs : Nat) (hbs : 0 < bs) (n : Nat) (order : List Nat
   rw [loader_flatten bs hbs]
   exact hperm.map _
 
+/-! ### histories on shared items (re-wrapping the same data set) -/
+
+theorem Dict.get?_set_same (d : Dict β) (k : String) (v : β) : (d.set k v).get? k = some v := by
+  simp [Dict.get?, Dict.set]
+
+theorem Dict.get?_set_other (d : Dict β) (k k' : String) (v : β) (h : k' ≠ k) :
+    (d.set k v).get? k' = d.get? k' := by
+  have hk : (k == k') = false := by simpa using fun e => h e.symm
+  simp only [Dict.get?, Dict.set, List.find?_cons, hk]
+  congr 1
+  induction d with
+  | nil => rfl
+  | cons p d ih =>
+    by_cases hp : p.1 == k
+    · have hpk : (p.1 == k') = false := by
+        have : p.1 = k := by simpa using hp
+        simpa [this] using fun e => h e.symm
+      simp [hp, hpk, ih]
+    · by_cases hpk : p.1 == k'
+      · simp [hp, hpk]
+      · simp [hp, hpk, ih]
+
+/-- **C17 `rewrap_current`**: whatever happened to the shared items before (any earlier wrappers, any
+reads — `st` is arbitrary), reading item `i` through a wrapper returns the CURRENT wrapper's value under
+its key and leaves every other entry of the item as it was. -/
+theorem rewrap_current (st : Store β) (key : String) (extra : Nat → β) (i : Nat) :
+    ((readExtra st key extra i).2).get? key = some (extra i) ∧
+    ∀ k', k' ≠ key → ((readExtra st key extra i).2).get? k' = (st.getD i []).get? k' :=
+  ⟨Dict.get?_set_same _ _ _, fun k' h => Dict.get?_set_other _ _ _ _ h⟩
+
+/-- the same for a whole pass over any index list (any order, repeated indices allowed), from any store -/
+theorem readMany_current (st : Store β) (key : String) (extra : Nat → β) (idxs : List Nat) :
+    ((readMany st key extra idxs).2).map (fun d => d.get? key) = idxs.map (fun i => some (extra i)) := by
+  induction idxs generalizing st with
+  | nil => rfl
+  | cons i is ih =>
+    simp only [readMany, List.map_cons]
+    rw [ih]
+    congr 1
+    exact Dict.get?_set_same _ _ _
+
 /-! ### non-vacuity -/
+
+/-- wrap with 100+i, read, wrap the same store with 200+i, read: the second pass sees 200+i -/
+example :
+    let st0 : Store Nat := [[("id", 0)], [("id", 1)]]
+    let (st1, _) := readMany st0 "extra" (fun i => 100 + i) [0, 1]
+    ((readMany st1 "extra" (fun i => 200 + i) [1, 0]).2).map (fun d => (d.get? "id", d.get? "extra")) =
+      [(some 1, some 201), (some 0, some 200)] := by decide
 
 example : chunks 3 [0, 1, 2, 3, 4, 5, 6] = [[0, 1, 2], [3, 4, 5], [6]] := by decide
 example : chunks 3 [0, 1, 2, 3, 4, 5] = [[0, 1, 2], [3, 4, 5]] := by decide
